@@ -879,9 +879,22 @@ func c15Names(args map[string]string, withHelpers bool) []string {
 
 // ---------- streams ----------
 
+// 4th column (single transformations): what the oracle's specification says, for the comparison
+// with the Lean specification the theorems are stated about
+func c15SpecColumn(c *c15Case) string {
+	if len(c.steps) != 1 {
+		return "-"
+	}
+	exp, es, _ := c15Spec(c.steps, c.in, c15Q{})
+	if es == "ok" {
+		return "ok " + virSchemas(exp)
+	}
+	return es
+}
+
 func c15Emit(out *bufio.Writer, c *c15Case) {
 	req, impl, verdict := c15Row(c)
-	fmt.Fprintf(out, "%s\t%s\t%s\n", req, impl, verdict)
+	fmt.Fprintf(out, "%s\t%s\t%s\t%s\n", req, impl, verdict, c15SpecColumn(c))
 }
 
 func init() {
